@@ -109,20 +109,8 @@ fn part_a(bytes: &[u8], stats: &mut Stats) -> Verdict {
                     fl.verif_handle_command(text);
                     Ok(None)
                 }
-                Op::Play(_) | Op::Resume(_) => {
-                    let mut c = base_cmd.clone();
-                    if !cur_moves.is_empty() {
-                        if !c.split_whitespace().any(|t| t == "moves") {
-                            c.push_str(" moves");
-                        }
-                        for m in &cur_moves {
-                            c.push(' ');
-                            c.push_str(m);
-                        }
-                    }
-                    fl.verif_handle_command(&c);
-                    Ok(None)
-                }
+                // the extended game is sent below, once its moves have been chosen
+                Op::Play(_) | Op::Resume(_) => Ok(None),
                 Op::Search { depth, budget } => {
                     let board = *fl.verif_board();
                     let sr = fl.verif_searcher();
@@ -173,8 +161,10 @@ fn part_a(bytes: &[u8], stats: &mut Stats) -> Verdict {
                     }
                 }
                 // send the extended game (position commands always restate the whole game)
-                let _ = std::panic::catch_unwind(std::panic::AssertUnwindSafe(|| fl.verif_handle_command(&c)));
                 log.push(json!(c));
+                if let Err(pn) = std::panic::catch_unwind(std::panic::AssertUnwindSafe(|| fl.verif_handle_command(&c))) {
+                    return Err(Failure::new("command-panic", json!({"history": log, "panic": crate::panic_text(&pn)})));
+                }
             }
             Op::Search { depth, budget } => {
                 log.push(json!({"search_depth": depth, "budget_nodes": budget}));
@@ -355,7 +345,59 @@ pub fn run(tier: Tier, seed: u64, known: &Known) -> PropRun {
     run
 }
 
-pub fn replay(part: &str, bytes: &[u8], _case: &Value, stats: &mut Stats) -> Verdict {
+/// Structural replay of a layer-A case: the saved history (command lines and searches) is run
+/// through a fresh engine; the reference reads the same command lines.
+fn replay_history(hist: &[Value], stats: &mut Stats) -> Verdict {
+    let mut fl = Flounder::new();
+    let mut lines: Vec<String> = Vec::new();
+    let mut log: Vec<Value> = Vec::new();
+    for item in hist {
+        log.push(item.clone());
+        if let Some(cmd) = item.as_str() {
+            lines.push(cmd.to_string());
+            if let Err(pn) = std::panic::catch_unwind(std::panic::AssertUnwindSafe(|| fl.verif_handle_command(cmd))) {
+                return Err(Failure::new("command-panic", json!({"history": log, "panic": crate::panic_text(&pn)})));
+            }
+            continue;
+        }
+        let depth = item.get("search_depth").and_then(|x| x.as_u64()).unwrap_or(1) as u8;
+        let budget = item.get("budget_nodes").and_then(|x| x.as_u64());
+        let cur = script::ref_current(&lines).map_err(|e| Failure::new("harness-bad-replay-file", json!({"error": e})))?;
+        let r = std::panic::catch_unwind(std::panic::AssertUnwindSafe(|| {
+            let board = *fl.verif_board();
+            let sr = fl.verif_searcher();
+            sr.verif_set_node_limit(budget);
+            sr.verif_set_hard_cap(Some(budget.unwrap_or(0) + 5_000_000));
+            let it0 = sr.verif.iterations_completed.get();
+            let (_, mv) = sr.find_best_move(&board, depth, None);
+            sr.verif_set_node_limit(None);
+            (mv.map(|m| m.to_algebraic()), sr.verif.iterations_completed.get() - it0)
+        }));
+        stats.eval();
+        let (mv, its) = match r {
+            Ok(x) => x,
+            Err(pn) => return Err(Failure::new("command-panic", json!({"history": log, "panic": crate::panic_text(&pn)}))),
+        };
+        let legal: Vec<String> = cur.legal_moves().iter().map(|m| m.uci()).collect();
+        let d = json!({"history": log, "current_position": cur.fen4(), "returned": mv, "legal_moves": legal.len(), "iterations_completed": its});
+        match &mv {
+            None if !legal.is_empty() => {
+                return Err(Failure::new(if its == 0 { "none-with-legal-moves-no-iteration-completed" } else { "none-with-legal-moves" }, d));
+            }
+            Some(_) if legal.is_empty() => return Err(Failure::new("move-in-terminal-position", d)),
+            Some(m) if !legal.contains(m) => return Err(Failure::new("illegal-bestmove", d)),
+            _ => {}
+        }
+    }
+    Ok(())
+}
+
+pub fn replay(part: &str, bytes: &[u8], case: &Value, stats: &mut Stats) -> Verdict {
+    if part != "B" {
+        if let Some(h) = case.get("history").and_then(|x| x.as_array()) {
+            return replay_history(h, stats);
+        }
+    }
     match part {
         "B" => part_b(bytes, stats),
         _ => part_a(bytes, stats),
